@@ -1,11 +1,26 @@
-TECHNIQUE = ('bounded symbolic execution of LLVM IR lowered to C: CBMC/SAT over a sequentialised step machine, with an '
-             'in-model vector-clock happens-before detector that honours the declared memory orders')
-ASSUMPTIONS = ['an atomic load reads from the latest store in the explored (sequentially consistent) order; '
-               'happens-before edges come only from the declared orders (release/acquire/acq_rel/seq_cst, release sequences '
-               'through RMWs, fences), thread start/join and mutexes',
-               'plain accesses are observed through race probes in the payload type (constructors, assignments, destructor)']
-OUTSIDE = ('dispenso code outside the listed kernels; stale reads / reorderings that only a weak-memory execution shows '
-           '(the explored interleavings are sequentially consistent); plain accesses other than payload accesses')
+TECHNIQUE = ('bounded symbolic execution of LLVM IR lowered to C: CBMC/SAT (cadical) over a sequentialised step machine '
+             '(engine cbmc-seq), with an in-model vector-clock happens-before detector (rt/race_rt.c) that derives '
+             'synchronises-with edges from the DECLARED memory orders of the real code')
+ASSUMPTIONS = ['an atomic load reads from the latest store in the explored (sequentially consistent) interleaving; '
+               'happens-before edges come only from the declared orders (release/acquire/acq_rel/seq_cst on the same atomic object, '
+               'release sequences through RMWs and -- C++11..17 rule, the language level of dispenso -- through later stores of the '
+               'releasing thread, release/acquire/seq_cst fences), thread start/join and mutexes; seq_cst operations and fences add no '
+               'happens-before edge beyond their acquire/release part',
+               'plain accesses are observed through race probes: in the payload type (constructors, assignments, destructor) for the '
+               'containers, on harness variables for the lock / event kernels; probes sit only where the documented thread-safety '
+               'contract promises race freedom',
+               'ChaseLevDeque requires a trivially copyable T: the probing payload is declared trivially copyable to the library by '
+               'specialising std::is_trivially_copyable in the harness (only the copy assignments of try_push/try_pop/try_steal are observed, '
+               'not the memcpy of try_pop_into/try_steal_into)',
+               'thread-safety contracts used: SPSCRingBuffer one producer + one consumer; MpmcRingBuffer any; ChaseLevDeque owner push/pop, '
+               'any thread steal; AsyncRequest multiple producers and consumers (async_request.h:27); Latch/CompletionEventImpl/RWLock any']
+OUTSIDE = ('only the listed kernels (SPSCRingBuffer, MpmcRingBuffer, ChaseLevDeque, AsyncRequest, CompletionEventImpl, Latch, RWLock) within '
+           'the stated thread/operation counts and scheduler rounds are covered; all other dispenso code (thread pool, task sets, futures, '
+           'parallel_for incl. the dynamic no-wait tail, ConcurrentVector / ConcurrentObjectArena -- whose docs leave element synchronisation to '
+           'the user --, SmallBufferAllocator, pipelines, graphs) is NOT covered; stale reads / reorderings that only a weak-memory execution '
+           'shows are not modelled (explored interleavings are sequentially consistent, happens-before is computed from the declared orders); '
+           'plain accesses of the library other than payload accesses (e.g. internal plain fields) are not observed; the C++20 release-sequence '
+           'rule is only an informational instance (tier cxx20)')
 SEQ = {'engine': 'cbmc-seq', 'spin_loops': True, 'timeout': 1500}
 
 
@@ -37,10 +52,14 @@ INSTANCES = [
          bounds='RWLock: main lock_shared/read/lock_upgrade/write/lock_downgrade/read/unlock_shared, T1 try_lock_shared, T2 lock_shared; 3 rounds'),
     dict(SEQ, name='chaselev', src='chaselev_race.cpp', rt_defs=RT(2, 2), defs={'VF_KIND': 0, 'VF_CAP': 2}, nthreads=3, steps=3, unwind=2,
          bounds='ChaseLevDeque<probe,2>, no wrap-around: owner push,push,pop,(join),pop; two stealers one try_steal each; 3 rounds'),
+    # informational, not part of quick/thorough: the same program judged by the C++20 release-sequence rule (P0982R1) -- fails, see NOTES.md
+    dict(SEQ, name='chaselev_cxx20', src='chaselev_race.cpp', rt_defs=RT(2, 2, VF_RACE_CXX20=1), defs={'VF_KIND': 0, 'VF_CAP': 2},
+         nthreads=3, steps=3, unwind=2, tiers=['cxx20'],
+         bounds='as chaselev, but later plain stores of the releasing thread do not continue a release sequence (C++20)'),
     dict(SEQ, name='chaselev_wrap', src='chaselev_race.cpp', rt_defs=RT(2, 1), defs={'VF_KIND': 1, 'VF_CAP': 1}, nthreads=2, steps=3, unwind=2,
          bounds='ChaseLevDeque<probe,1>, slot reuse: owner push,pop,push,(join),pop; one stealer try_steal; 3 rounds'),
-    dict(SEQ, name='mpmc_reuse', src='mpmc_race.cpp', defs={'VF_KIND': 0}, rt_defs=RT(4, 2), nthreads=2, steps=3, unwind=3,
-         bounds='MpmcRingBuffer<probe,2>: producer 3 emplaces (slot 0 reused), main 2 pops + drain; 3 rounds'),
-    dict(SEQ, name='mpmc_2p', src='mpmc_race.cpp', defs={'VF_KIND': 1}, rt_defs=RT(4, 2), nthreads=4, steps=3, unwind=3,
-         bounds='MpmcRingBuffer<probe,2>: two producers 1 emplace each, consumer 2 pops, drain by main; 3 rounds'),
+    dict(SEQ, name='mpmc_reuse', src='mpmc_race.cpp', defs={'VF_KIND': 0}, rt_defs=RT(4, 2), nthreads=2, steps=3, unwind=2,
+         bounds='MpmcRingBuffer<probe,2>: producer 3 emplaces (slot 0 reused), main 1 pop concurrently + 2 pops after join; 3 rounds'),
+    dict(SEQ, name='mpmc_2p', src='mpmc_race.cpp', defs={'VF_KIND': 1}, rt_defs=RT(4, 2), nthreads=4, steps=3, unwind=2,
+         bounds='MpmcRingBuffer<probe,2>: two producers 1 emplace each, consumer 2 pops, 1 pop by main after join; 3 rounds'),
 ]
